@@ -55,6 +55,8 @@ type Driver struct {
 	Judge bool   // report C01 clause failures as violations (else just abort the case)
 
 	OnRoot func(d *Driver, root *mast.Root)
+	// OnReload sees (tree before, its root, tree loaded from the root).
+	OnReload func(d *Driver, before *mast.Mast, root *mast.Root, after *mast.Mast)
 
 	Failed     bool
 	Ops        int
@@ -62,6 +64,7 @@ type Driver struct {
 	MaxHeight  int
 	HadDelete  bool
 	HadReload  bool
+	Reloads    int
 	HadClone   bool
 	HadPersist bool
 	HadUpdate  bool
@@ -249,7 +252,11 @@ func (d *Driver) Step() {
 	}
 	d.checkSize("op")
 	d.noteHeight()
-	if !d.Failed && (d.M.Len() <= 48 || d.Ops%8 == 0) {
+	every := 8
+	if d.M.Len() > 128 {
+		every = d.M.Len() / 16
+	}
+	if !d.Failed && (d.M.Len() <= 48 || d.Ops%every == 0) {
 		d.CheckFull("op")
 	}
 }
@@ -438,6 +445,7 @@ func (d *Driver) OpReload() {
 	}
 	r2 := root
 	if d.R.Chance(2, 3) {
+		d.C.Obs("reloads_via_json", 1)
 		b, err := json.Marshal(root)
 		if err != nil {
 			d.fail("reload", nil, "Root does not marshal: %v", err)
@@ -454,8 +462,12 @@ func (d *Driver) OpReload() {
 		d.fail("reload", nil, "LoadMast of a just-persisted root failed: %v", err)
 		return
 	}
+	if d.OnReload != nil {
+		d.OnReload(d, d.T, root, t)
+	}
 	d.T = t
 	d.HadReload = true
+	d.Reloads++
 	d.C.Obs("op_reload", 1)
 }
 
